@@ -146,6 +146,22 @@ def check(case, ctx):
                         ctx.fail('result', pmodel.render(e), g if how == 'function' else g.serialize(), call=call,
                                  index=idx, diff=d)
                         break
+    # the same call again after the caller edited the previous result in place (size 0 is outside the quantifier: the
+    # unchanged library raises there for peptides with a charge or a C-terminal modification)
+    for name, it, count in ops:
+        for how in ('function', 'method'):
+            fn = (lambda sz: getattr(p, name)(s, sz)) if how == 'function' else (lambda sz: getattr(p.parse(s), name)(sz))
+            if n <= 3:
+                st1, first = lib.call(fn, None)
+                if st1 == 'ok' and first:
+                    keep = [x if isinstance(x, str) else x.serialize() for x in first]
+                    first.reverse()
+                    first.pop()
+                    st2, second = lib.call(fn, None)
+                    ctx.evals += 2
+                    got2 = [x if isinstance(x, str) else x.serialize() for x in second] if st2 == 'ok' else second
+                    if got2 != keep:
+                        ctx.fail('result-after-editing-previous-result', keep, got2, call=[name, s, None, how])
     ctx.outcome = [s, nres]
 
 
